@@ -90,6 +90,7 @@ impl World for WatermarkWorld {
                 "fault.clock_stall",
                 "fault.reordered_arrival",
                 "probe.delay_or_lateness_bound_of_a_second_or_more",
+                "probe.stream_of_more_than_1024_arrivals",
             ],
             quick_runs: 1_500_000,
             thorough_runs: 40_000_000,
@@ -154,6 +155,18 @@ impl World for WatermarkWorld {
             })
             .collect();
         let tick_pattern = if rng.chance(1, 4) { vec![*rng.pick(&[0u8, 1]), *rng.pick(&[0u8, 1, 2])] } else { vec![] };
+        // one run in 400: a long stream (1030-1300 arrivals, most of them late) — buffers and counters
+        // that only matter after a thousand events
+        let arrivals: Vec<Arrival> = if rng.chance(1, 400) {
+            let n = 1030 + rng.usize(270);
+            let mut v = vec![Arrival { ts: 40, clock_adv: 1 }];
+            for _ in 0..n {
+                v.push(Arrival { ts: if rng.chance(1, 8) { 40 + rng.below(6) } else { rng.below(36) }, clock_adv: 1 });
+            }
+            v
+        } else {
+            arrivals
+        };
         // unit scale (swarm): the same history in ms, quarter seconds, seconds or hours — delays and
         // lateness bounds of a second and more take other paths through `Duration` than 0..10 ms do.
         // Periodic emission is tied to the processing clock and keeps its scale.
@@ -191,6 +204,9 @@ impl World for WatermarkWorld {
         };
         let mut s = WatermarkedStream::new(strat, late);
         obs.faulty = t.arrivals.iter().any(|a| a.clock_adv <= 0) || !t.tick_pattern.is_empty();
+        if t.arrivals.len() > 1024 {
+            obs.count("probe.stream_of_more_than_1024_arrivals");
+        }
         if matches!(t.wm, Wm::Bounded(d) if d >= 1000) || matches!(t.late, Late::Allowed(m) if m >= 1000) {
             obs.count("probe.delay_or_lateness_bound_of_a_second_or_more");
         }
